@@ -2,13 +2,19 @@
 from contracts.providers import SF, BL
 
 GROUPS = [dict(name="validate", sidecars=["providers"], strmode="z3", units=[
-    (BL, "allow_file"), (BL, "allow_command"), (SF, "FileProvider.validate"), (SF, "CommandOutputProvider.validate")])]
+    (BL, "allow_file"), (BL, "allow_command"), (SF, "FileProvider.validate"), (SF, "CommandOutputProvider.validate"),
+    # typestate: the constructors end in validate(); the file / command factories hand out providers built for the resolved context and its root
+    (SF, "FileProvider.__init__"), (SF, "CommandOutputProvider.__init__"), (SF, "simple_file.__call__"), (SF, "first_file.__call__"),
+    (SF, "glob_file.__call__"), (SF, "simple_command.__call__")])]
 Z3_TIMEOUT = 40
 CVC5_TIMEOUT = 60
 NOT_CARRIED = ["os.path.realpath, os.path.exists, glob, shlex, which: assumed contracts of the OS / library (realpath: absolute, no trailing "
                "slash unless the root directory; the location the kernel opens)",
-               "factory typestate (every provider a factory returns went through validate): the datasource factories' __call__ methods are "
-               "not under contract in this revision",
+               "factory typestate: FileProvider.__init__ / CommandOutputProvider.__init__ (from after the base-class constructor call) and "
+               "simple_file / first_file / glob_file / simple_command .__call__ are under contract (every provider handed out was validated against the "
+               "root of the context the factory resolved, with that context passed on, so the deny list is consulted); listdir / listglob (no content), "
+               "command_with_args, foreach_execute, foreach_collect, container_execute, container_collect are NOT under contract (bounded stand-in only); "
+               "that the provider classes stored in `kind` are FileProvider subclasses that do not override __init__ / validate is assumed",
                "destination shape of persisted content (serializers, mangle_command) and '..' inside relative paths re-joined under the "
                "output directory: not under contract",
                "apply_blacklist (translation of the user's redaction config into deny entries)"]
